@@ -235,6 +235,16 @@ def cases(tier, seed):
             for pf in (("parent", "rel"), ("parent", "slash"), ("else", "rel"), ("else", "abs")):
                 out.append({"tool": name, "outmode": "parent", "opt": oi, "pathform": list(pf), "faults": False, "broken": False,
                             "seed": seed, "w": 1})
+    # requested output = the input plotfile itself: the only way to satisfy the statement is to refuse; a run that ends
+    # normally must at least have left the input untouched
+    if os.environ.get("KV_C13_SELF"):
+        for name, (fn, kind, two, outmodes, opts, broken) in sorted(TOOLS.items()):
+            if "explicit" not in outmodes or name == "chef_builtin":
+                continue
+            for oi, opt in enumerate(opts):
+                for pf in (("parent", "rel"), ("parent", "slash"), ("else", "abs")):
+                    out.append({"tool": name, "outmode": "self", "opt": oi, "pathform": list(pf), "faults": False, "broken": False,
+                                "seed": seed, "w": 1})
     # default outputs for directory names with dots (a common stem before the dot, a dotted copy)
     for name, (fn, kind, two, outmodes, opts, broken) in sorted(TOOLS.items()):
         if "default" not in outmodes or name == "chef_builtin":
@@ -338,6 +348,9 @@ def execute(case, env, fail_at=None, breakage=None, opt_index=None):
         if os.path.isabs(out):
             os.makedirs(os.path.dirname(out), exist_ok=True)
         out_abs = os.path.realpath(os.path.join(cwd, out))
+    elif case["outmode"] == "self":
+        out = P
+        out_abs = os.path.realpath(env.p1)
     elif case["outmode"] == "parent":
         out = path_form(env.indir, cwd, form)
         out_abs = os.path.realpath(env.indir)
